@@ -6,7 +6,7 @@ import time
 
 REPO = os.environ.get("FSV_REPO", "/repo")
 VERIF = os.path.dirname(os.path.dirname(os.path.abspath(__file__)))
-CACHE = os.path.join(VERIF, ".cache")
+CACHE = os.environ.get("FSV_CACHE") or os.path.join(VERIF, ".cache")
 
 FLAVOURS = {
     # deciding binary: release semantics, hooks compiled in, LTO off only to keep rebuilds short
